@@ -414,6 +414,10 @@ def check_gate(ctx):
                 probs.append("success path without exactly one validate call")
                 continue
             took = any("Validate>::validate" in repr(run.norm.n(gd["cond"])) and gd["value"] == 0 for gd in r.path.guards)
+            # or the function returns the validator's own verdict through Ok-preserving plumbing (`v.validate(&m).map(|()| token)`)
+            root = peel(r.ret)
+            if r.okness is None and isinstance(root, tuple) and root and root[0] == "call" and root[1].endswith("Validate>::validate"):
+                took = True
             if not took:
                 probs.append("success path does not take the validator's success edge")
             msg = run.norm.n(vc[0]["vals"][1])
